@@ -20,8 +20,25 @@ def load_stage(art, name, stage):
     return q
 
 
-def run_equiv(art, workdir, stage_a, stage_b, cases, maxsteps=20000, factor=60, slack=3000, timeout=1500):
-    """cases: list of (program name, [int args])."""
+def run_equiv(art, workdir, stage_a, stage_b, cases, maxsteps=20000, factor=60, slack=3000, timeout=1500, chunk=350):
+    """cases: list of (program name, [int args]); run in chunks of at most `chunk` programs (TLC reads a chunk as one constant)."""
+    names = []
+    for n, _ in cases:
+        if n not in names:
+            names.append(n)
+    if len(names) > chunk:
+        merged = None
+        for i in range(0, len(names), chunk):
+            part = set(names[i:i + chunk])
+            r = run_equiv(art, os.path.join(workdir, "part%d" % (i // chunk)), stage_a, stage_b, [c for c in cases if c[0] in part],
+                          maxsteps=maxsteps, factor=factor, slack=slack, timeout=timeout, chunk=chunk)
+            if merged is None:
+                merged = r
+            else:
+                merged["results"] += r["results"]
+                for k_ in ("states", "distinct", "wall"):
+                    merged[k_] += r[k_]
+        return merged
     progs, pidx, tcases = [], {}, []
     for name, args in cases:
         for st in (stage_a, stage_b):
